@@ -57,10 +57,14 @@ STATEMENT_STATUS = {
                         "backslash LF/CR/CRLF continuations, ignored backslash, raw balanced parentheses of any depth",
     "C01_nesting": "proved on token sequences for trees of any depth: the stack parser (PSStackParser.nextobject + "
                    "PDFStreamParser) rebuilds the tree, null-valued dictionary entries absent",
-    "C01_roundtrip": "NOT proved end to end: missing are (1) real-number and keyword tokens, (2) the lemma that the "
-                     "tokens of a concatenation of spellings with separators are the concatenation of the tokens, "
-                     "(3) soundness of Spec/Syntax.spellcheck w.r.t. the item grammars; all three are covered by the "
-                     "correspondence (spec.spell == expected == implementation == model.obj) only",
+    "C01_tokens / C01_roundtrip_partial / C01_roundtrip_buffered_partial / C01_offset_partial":
+        "proved END TO END for spelled trees (STree) of any depth: every token-level freedom (integer/real forms, "
+        "#xx, all string escapes/octal/continuations/nested parentheses, hex case + inner white space, any run of "
+        "white space incl. NUL between tokens), any buffer size, any white-space padding in front; _partial because: "
+        ">= 1 white-space byte after every token that is not self-delimiting (no minimal delimiters), no comments "
+        "between tokens, even hex digit count (open finding), generation 0, no bare top-level reference",
+    "spec reader": "soundness of Spec/Syntax.spellcheck w.r.t. the item grammars is NOT proved; the reader is tied to "
+                   "the speller and to the implementation by the correspondence (spec.spell == expected) only",
 }
 
 
